@@ -147,7 +147,7 @@ var vtargets = []vtarget{
 	{"oidc.ParseToken+Check*[*JWTTokenRequest]", "client", func(e *venv, tok string, v int) vresult {
 		return parseAndCheck[*oidc.JWTTokenRequest](e, tok, e.clientKS)
 	}},
-	{"oidc.ParseToken[other targets]", "op", func(e *venv, tok string, v int) vresult {
+	{"oidc.ParseToken[others]", "op", func(e *venv, tok string, v int) vresult {
 		var l *oidc.LogoutTokenClaims
 		_, err := oidc.ParseToken(tok, &l)
 		ro := new(oidc.RequestObject)
